@@ -116,21 +116,23 @@ type World struct {
 	advance func(time.Duration)
 	SimT    int64
 
-	Log    []Event
-	CurOp  int
-	Execs  []int // executions started per function
-	Open   []int // functions whose body is executing (stack)
-	Tokens []TokInfo
-	errs   map[[2]int]*InjErr
-	faults map[int][]Fault
-	fnVals []interface{}
-	fnOK   []bool
+	Log     []Event
+	CurOp   int
+	Execs   []int // executions started per function
+	Open    []int // functions whose body is executing (stack)
+	Tokens  []TokInfo
+	errs    map[[2]int]*InjErr
+	faults  map[int][]Fault
+	fnVals  []interface{}
+	fnOK    []bool
+	catBind map[int]*Func
 
 	FaultsFired [4]int
 	Online      func(w *World, ev *Event) // optional hook run at fn-enter
 }
 
 func NewWorld(h *History) *World {
+	catInit()
 	w := &World{H: h, Execs: make([]int, len(h.Funcs)), errs: map[[2]int]*InjErr{}, faults: map[int][]Fault{},
 		fnVals: make([]interface{}, len(h.Funcs)), fnOK: make([]bool, len(h.Funcs))}
 	for _, f := range h.Faults {
@@ -152,6 +154,7 @@ func NewWorld(h *History) *World {
 	root := dig.VerifRootScope(w.C)
 	dig.VerifSeedRand(root, mix64(h.Cfg.ShuffleSeed, 0))
 	w.Scopes = []*dig.Scope{root}
+	catWorld = w
 	return w
 }
 
@@ -592,3 +595,6 @@ func (e *Event) Canon() string {
 	}
 	return b.String()
 }
+
+// catalogFn resolves a catalogue (declared Go function) stub; set by catalog.go.
+var catalogFn = func(w *World, f *Func) interface{} { panic("catalogue not linked") }
